@@ -55,10 +55,12 @@ def run(tier, v):
         sigs = [(k, a) for k, a in x.plan if k is not None and a.startswith("sig")]
         if sigs and x.signal is None and not x.timed_out:
             k0, a0 = sigs[0]
-            later = [o.path for o in x.trace if o.op == "open" and o.cls == "r" and o.path.startswith("$R0/src/")
+            # (only the scenario's source files count: a directory opened to be synced after a rename is not a file being started)
+            srcs = {"$R0/src/" + f for f in orig}
+            later = [o.path for o in x.trace if o.op == "open" and o.cls == "r" and o.path in srcs
                      and (o.k >= k0 if a0.startswith("sig-before") else o.k > k0)]
             # a signal that arrives while the tree is still being listed finds no file in progress: none may be started afterwards
-            first_open = next((o.k for o in base.trace if o.op == "open" and o.cls == "r" and o.path.startswith("$R0/src/")), None)
+            first_open = next((o.k for o in base.trace if o.op == "open" and o.cls == "r" and o.path in srcs), None)
             last_listing = max([o.k for o in base.trace if o.op in ("opendir", "readdir", "closedir") and (first_open is None or o.k < first_open)] or [-1])
             allowed = 0 if k0 < last_listing else 1
             if len(later) > allowed:
